@@ -256,7 +256,7 @@ func c06Values() []interface{} {
 		primitive.DateTime(0), primitive.DateTime(1), primitive.DateTime(-1), primitive.DateTime(math.MaxInt64), primitive.DateTime(math.MinInt64),
 		primitive.Timestamp{T: 0, I: 0}, primitive.Timestamp{T: 1, I: 2}, primitive.Timestamp{T: math.MaxUint32, I: math.MaxUint32},
 		oid, primitive.NilObjectID,
-		primitive.Regex{Pattern: "a.*b", Options: "i"}, primitive.Regex{Pattern: "", Options: ""},
+		primitive.Regex{Pattern: "a.*b", Options: "i"}, primitive.Regex{Pattern: "", Options: ""}, primitive.Regex{Pattern: "^a", Options: "si"}, primitive.Regex{Pattern: "x", Options: "xmi"},
 		primitive.Binary{Subtype: 0, Data: []byte{1, 2, 3}}, primitive.Binary{Subtype: 0, Data: []byte{}}, primitive.Binary{Subtype: 2, Data: []byte{9}}, primitive.Binary{Subtype: 4, Data: make([]byte, 16)}, primitive.Binary{Subtype: 0x80, Data: []byte{0xff}},
 		bson.D{}, bson.A{}, bson.D{{Key: "a", Value: bson.D{{Key: "b", Value: bson.A{int32(1), bson.D{{Key: "c", Value: nil}}}}}}},
 		bson.A{bson.A{int32(1)}, bson.A{}}, bson.A{nil, int64(2), "s", bson.D{}}, bson.D{{Key: "", Value: int32(1)}}, bson.D{{Key: "k.with.dots", Value: int32(1)}},
